@@ -323,6 +323,7 @@ def rule_f3(F):
         if not nbs:
             continue
         defs = mir.Defs(b)
+        dom_ = mir.dominators(b)
         din, _ = depth_analysis(b, frame_summaries(F))
         after = set()
         for nb in nbs:
@@ -343,6 +344,38 @@ def rule_f3(F):
             label = pname or (fields[-1] if fields else "sub-expression")
             key = "%s visit(%s)" % (hir.last(b.path), label)
             r.inst(key + " #%d" % len(r.instances), {"fn": b.path, "line": t["line"], "visit": hir.last(mir.callee(t)), "of": label, "frame_depth_relative_to_entry": sorted(d)})
+            shared = None
+            if min(d) >= 1:
+                # the frame must be the visit's OWN: opened for it, nothing else registered in it before the visit (a frame that
+                # also holds pattern bindings is 'forgotten', not drained, on the path that enters the arm)
+                doms_ = sorted(dom_[bi], key=lambda x: -len(dom_[x]))  # nearest dominators first
+                pops_ = 0
+                own_push = None
+                for x in doms_:
+                    if x == bi:
+                        continue
+                    tx = b.blocks[x]["term"]
+                    if tx["k"] != "call":
+                        continue
+                    if is_frame_op(tx, "pop") or (mir.callee_def(tx) == "std::mem::take" and (tx["f"].get("gargs") or [None])[0] == FRAME_TY):
+                        pops_ += 1
+                    elif is_frame_op(tx, "push"):
+                        if pops_ == 0:
+                            own_push = x
+                            break
+                        pops_ -= 1
+                if own_push is not None:
+                    # blocks on a path from the push to this visit that does not run through the push (or the visit) again
+                    fwd = mir.reachable_from(b, own_push, stop={bi}) - {own_push}
+                    between = {x for x in fwd if bi in mir.reachable_from(b, x, stop={own_push})}
+                    regs_ = [x for x in between if x != bi and b.blocks[x]["term"]["k"] == "call"
+                             and hir.last(mir.callee(b.blocks[x]["term"]) or "") in ("add_live_variable", "tmp", "assign_to_var")]
+                    if regs_:
+                        shared = b.blocks[regs_[0]]["term"].get("line")
+            if shared is not None:
+                r.bad(b.path, "%s(%s) in a frame shared with other variables" % (hir.last(mir.callee(t)), label), relfile(b.file), t["line"],
+                      "`%s` is lowered into the frame that already holds other variables (registered at line %s) instead of a frame of its own: its temporaries are dropped - or forgotten - "
+                      "together with them, not when `%s` has been evaluated (a match guard that holds: the arm is entered with the guard's temporaries forgotten)" % (label, shared, label))
             if min(d) < 1:
                 r.bad(b.path, "%s(%s) after new_block without own frame" % (hir.last(mir.callee(t)), label), relfile(b.file), t["line"],
                       "`%s` is lowered into a block that runs conditionally or once per iteration, but its temporaries are registered in the enclosing frame: "
